@@ -79,8 +79,8 @@ AbsI(x) == IF x < 0 THEN -x ELSE x
 RECURSIVE MaxAbsSeq(_)
 MaxAbsSeq(q) == IF q = <<>> THEN 0 ELSE LET m == MaxAbsSeq(Tail(q)) IN IF AbsI(Head(q)) > m THEN AbsI(Head(q)) ELSE m
 MaxAbs(t) == MaxAbsSeq(Flatten(t.c))            \* one batch axis
-\* keep every cell inside TLC's 32-bit integers
-Small(t, u, op) == IF op = "mul" THEN MaxAbs(t) < 30000 /\ MaxAbs(u) < 30000 ELSE MaxAbs(t) + MaxAbs(u) < 1000000000
+\* keep every cell an integer that single precision represents exactly (|cell| < 2^24): a history may convert a table to float32
+Small(t, u, op) == IF op = "mul" THEN MaxAbs(t) < 4000 /\ MaxAbs(u) < 4000 ELSE MaxAbs(t) + MaxAbs(u) < 16000000
 Emitop(o, res) == hist' = Append(hist, o) /\ heap' = (IF Len(heap) < 9 THEN Append(heap, res) ELSE heap)
 Next == /\ Len(hist) < Depth
         /\ \E i \in {R(DOMAIN heap)}, j \in {R(DOMAIN heap)}, w \in {R(1..12)} :
